@@ -66,6 +66,12 @@
 (* (generated MC module).  The state is a row and two attribute vectors;   *)
 (* the invariants are the same laws on the projection table.  A            *)
 (* counterexample is a concrete (class, attribute vector pair).            *)
+(*                                                                         *)
+(* LITERAL MODE.  The universe of CONSTRUCTOR CALLS of scalar literals     *)
+(* (ufl/constantvalue.py): which API is called with which Python type of   *)
+(* argument and which number.  The state is the sequence of calls made so  *)
+(* far with the object each one returned, and the IntValue flyweight cache.*)
+(* See the section "Literal mode" below.                                   *)
 (***************************************************************************)
 EXTENDS Integers, Sequences, FiniteSets, TLC, Json, SequencesExt
 
@@ -81,10 +87,14 @@ CONSTANTS Mode,        \* "heap" or "table"
           XEq,         \* the __eq__ of class X reads the attribute      (ExternalOperator.__eq__: TRUE)
           XHash,       \* the hash of an X object reads the attribute    (Operator._ufl_compute_hash_: FALSE)
           XWalk,       \* step 4 of expr_equals reads the attribute of X operands (as coded: FALSE)
-          ProjTable    \* table mode: sequence of rows [cls, n, eq, eqr, hash, repr, sig, obs]
+          ProjTable,   \* table mode: sequence of rows [cls, n, eq, eqr, hash, repr, sig, obs]
+          LitMax,      \* literal mode: number of constructor calls of a behaviour
+          LitFocus,    \* literal mode: TRUE = all calls of a behaviour are about the same number
+          LitCoerce    \* literal mode: the literal classes whose constructor converts the value it stores to
+                       \*   the Python type the class wraps (as coded and intended: all three)
 
-VARIABLES obj, tup, hv, hist, pr, px, py
-vars == <<obj, tup, hv, hist, pr, px, py>>
+VARIABLES obj, tup, hv, hist, pr, px, py, lit
+vars == <<obj, tup, hv, hist, pr, px, py, lit>>
 
 CT == 1  CL == 2  CU == 3  CB == 4  CV == 5  CX == 6
 NoHash == << >>
@@ -239,31 +249,32 @@ HeapInit ==
   /\ hv = [i \in DOMAIN obj |-> NoHash]
   /\ hist = << >>
   /\ pr = 0 /\ px = << >> /\ py = << >>
+  /\ lit = << >>
 
 Compare(a, b) ==
   /\ Room
   /\ LET r == Cmp(obj, tup, hv, a, b, Fuel) IN
      /\ tup' = r.t /\ hv' = r.c
      /\ hist' = Rec("eq", a, b, r)
-  /\ UNCHANGED <<obj, pr, px, py>>
+  /\ UNCHANGED <<obj, pr, px, py, lit>>
 
 CompareForms(a, b) ==
   /\ Room /\ Wrappers
   /\ LET r == FormCmp(obj, tup, hv, a, b) IN
      /\ tup' = r.t /\ hv' = r.c
      /\ hist' = Rec("feq", a, b, r)
-  /\ UNCHANGED <<obj, pr, px, py>>
+  /\ UNCHANGED <<obj, pr, px, py, lit>>
 
 Hash(a) ==
   /\ Room
   /\ hv' = DoHash(obj, tup, hv, a)
   /\ hist' = Rec("hash", a, a, [res |-> TRUE, t |-> tup, c |-> hv'])
-  /\ UNCHANGED <<obj, tup, pr, px, py>>
+  /\ UNCHANGED <<obj, tup, pr, px, py, lit>>
 
 Repr(a) ==
   /\ Room /\ MaxHist > 0           \* repr reads, never writes: only recorded in histories
   /\ hist' = Rec("repr", a, a, [res |-> TRUE, t |-> tup, c |-> hv])
-  /\ UNCHANGED <<obj, tup, hv, pr, px, py>>
+  /\ UNCHANGED <<obj, tup, hv, pr, px, py, lit>>
 
 HeapNext ==
   \/ \E a \in Ids, b \in Ids : Compare(a, b) \/ CompareForms(a, b)
@@ -274,7 +285,7 @@ HeapNext ==
 
 Bits(n) == [1..n -> 0..1]
 TabInit ==
-  /\ obj = << >> /\ tup = << >> /\ hv = << >> /\ hist = << >>
+  /\ obj = << >> /\ tup = << >> /\ hv = << >> /\ hist = << >> /\ lit = << >>
   /\ pr \in DOMAIN ProjTable
   /\ px \in Bits(ProjTable[pr].n) /\ py \in Bits(ProjTable[pr].n)
 
@@ -309,8 +320,135 @@ TabDefects == SetToSeq(TabDefectSet)
 TabExport == Mode = "table" => PrintT(ToJson(TabDefects))
 
 -----------------------------------------------------------------------------
-Init == IF Mode = "heap" THEN HeapInit ELSE TabInit
-Next == IF Mode = "heap" THEN HeapNext ELSE UNCHANGED vars
+(* Literal mode *)
+(*                                                                         *)
+(* A call is [api, src, slot, im]:                                         *)
+(*   api   the function called: the classes IntValue, FloatValue,          *)
+(*         ComplexValue, or as_ufl (what every operator overload applies   *)
+(*         to a non-UFL operand)                                           *)
+(*   src   the Python type of the argument: int, bool, a numpy integer,    *)
+(*         float, a numpy float, complex, a numpy complex                  *)
+(*   slot  which real number: LZ zero, LONE one (the only non-zero bool),  *)
+(*         LS an integer with 0 < |n| < 100 (below the flyweight bound),   *)
+(*         LL, LL2 two different integers with |n| >= 100, LH a number     *)
+(*         with fractional part 1/2.  The replay chooses concrete numbers  *)
+(*         (both signs, 99/100 at the bound) and numpy dtypes.             *)
+(*   im    1: a non-zero imaginary part is added (complex arguments only)  *)
+(* LitValid = the calls the API accepts.                                   *)
+(*                                                                         *)
+(* Semantics as coded: as_ufl dispatches on numbers.Integral / Real /      *)
+(* Complex; every __new__ returns the scalar Zero for 0; ComplexValue      *)
+(* hands a real argument over to FloatValue(value.real); IntValue keeps    *)
+(* one object per value with |value| < 100 (whoever asks first creates     *)
+(* it, everybody later gets that object); the constructors store           *)
+(* int(value) / float(value) / complex(value)  (LitCoerce).                *)
+(* An object is [cls, slot, im, vt], vt = Python type of the stored value. *)
+(* ScalarValue.__eq__ : same class and numerically equal values.           *)
+(* repr: class name and repr of the stored value (FloatValue formats       *)
+(* float(value)); hash = hash(repr).                                       *)
+(*                                                                         *)
+(* lit = [steps, cache]: steps[k] = [call, o, id] (id: identity of the     *)
+(* returned object: k if the call created it, the id of the cached object, *)
+(* ZeroId for the Zero singleton); cache[s] = id of the flyweight of small *)
+(* slot s, 0 = none yet (a behaviour starts with the values it uses not    *)
+(* yet created, as in a fresh interpreter).                                *)
+
+LZ == 0  LONE == 1  LS == 2  LL == 3  LL2 == 4  LH == 5
+LitSlots  == LZ..LH
+LitSmall  == {LONE, LS}
+IntLike   == {"int", "bool", "npint"}
+FloatLike == {"float", "npfloat"}
+CplxLike  == {"complex", "npcomplex"}
+LitApis   == {"IntValue", "FloatValue", "ComplexValue", "as_ufl"}
+ZeroId    == 99
+
+LitValid(c) ==
+  /\ c.src = "bool" => c.slot \in {LZ, LONE}
+  /\ c.slot = LH => c.src \notin IntLike
+  /\ c.im = 1 => c.src \in CplxLike
+  \* purely imaginary numbers are left out: with real part 0.0 / -0.0 the unchanged code has equal ComplexValues
+  \* with different repr (c13.py records that as an observation, it is not judged)
+  /\ c.im = 1 => c.slot # LZ
+  /\ c.api = "IntValue" => c.src \notin CplxLike /\ c.slot # LH    \* integers, also given as integral floats
+  /\ c.api = "FloatValue" => c.src \notin CplxLike
+  /\ c.api = "ComplexValue" => c.src \in CplxLike
+
+LitCalls ==
+  {c \in [api : LitApis, src : IntLike \cup FloatLike \cup CplxLike, slot : LitSlots, im : 0..1] : LitValid(c)}
+
+LitRoute(c) ==
+  IF c.api # "as_ufl" THEN c.api
+  ELSE IF c.src \in IntLike THEN "IntValue"
+  ELSE IF c.src \in FloatLike THEN "FloatValue" ELSE "ComplexValue"
+
+RealSrc(s) == IF s = "complex" THEN "float" ELSE IF s = "npcomplex" THEN "npfloat" ELSE s
+Wraps(cls) == IF cls = "IntValue" THEN "int" ELSE IF cls = "FloatValue" THEN "float"
+              ELSE IF cls = "ComplexValue" THEN "complex" ELSE "none"
+
+\* the object a call denotes when it creates one
+LitNew(c) ==
+  LET r   == LitRoute(c)
+      viaF == r = "ComplexValue" /\ c.im = 0
+      cls == IF c.im = 0 /\ c.slot = LZ THEN "Zero" ELSE IF viaF THEN "FloatValue" ELSE r
+      src == IF viaF THEN RealSrc(c.src) ELSE c.src
+  IN [cls |-> cls, slot |-> c.slot, im |-> c.im,
+      vt |-> IF cls = "Zero" \/ cls \in LitCoerce THEN Wraps(cls) ELSE src]
+
+LitInit ==
+  /\ obj = << >> /\ tup = << >> /\ hv = << >> /\ hist = << >>
+  /\ pr = 0 /\ px = << >> /\ py = << >>
+  /\ lit = [steps |-> << >>, cache |-> [s \in LitSmall |-> 0]]
+
+LitCreate(c) ==
+  /\ Len(lit.steps) < LitMax
+  /\ LitFocus => \A k \in DOMAIN lit.steps : lit.steps[k].call.slot = c.slot
+  \* LL and LL2 are interchangeable: the first large number of a behaviour is LL
+  /\ c.slot = LL2 => \E k \in DOMAIN lit.steps : lit.steps[k].call.slot = LL
+  /\ LET n    == LitNew(c)
+         i    == Len(lit.steps) + 1
+         fly  == n.cls = "IntValue" /\ n.slot \in LitSmall
+         hit  == fly /\ lit.cache[n.slot] # 0
+         id   == IF n.cls = "Zero" THEN ZeroId ELSE IF hit THEN lit.cache[n.slot] ELSE i
+         o    == IF hit THEN lit.steps[id].o ELSE n
+     IN lit' = [steps |-> Append(lit.steps, [call |-> c, o |-> o, id |-> id]),
+                cache |-> IF fly /\ ~hit THEN [lit.cache EXCEPT ![n.slot] = i] ELSE lit.cache]
+  /\ UNCHANGED <<obj, tup, hv, hist, pr, px, py>>
+
+LitNext == \E c \in LitCalls : LitCreate(c)
+
+\* what the code answers
+LitEq(a, b)   == a.cls = b.cls /\ a.slot = b.slot /\ a.im = b.im
+LitRepr(a)    == <<a.cls, IF a.cls = "FloatValue" THEN "float" ELSE a.vt, a.slot, a.im>>
+LitValue(a)   == <<a.vt, a.slot, a.im>>
+Builtin       == {"none", "int", "bool", "float", "complex"}
+
+LitO(k) == lit.steps[k].o
+LitIds == DOMAIN lit.steps
+\* == implies identical repr (hence hash) and the same value
+LitEqImpliesRepr  == Mode = "lit" => \A a \in LitIds, b \in LitIds : LitEq(LitO(a), LitO(b)) => LitRepr(LitO(a)) = LitRepr(LitO(b))
+LitEqImpliesValue == Mode = "lit" => \A a \in LitIds, b \in LitIds : LitEq(LitO(a), LitO(b)) => LitValue(LitO(a)) = LitValue(LitO(b))
+\* repr is an expression over the ufl namespace (eval(repr(x)) is possible)
+LitReprEvaluable  == Mode = "lit" => \A a \in LitIds : LitRepr(LitO(a))[2] \in Builtin
+\* the same object is only ever handed out for calls that denote the same literal, and the objects a call
+\* returned earlier are not changed by later calls
+LitIdentitySound  == Mode = "lit" => \A a \in LitIds, b \in LitIds : lit.steps[a].id = lit.steps[b].id => LitO(a) = LitO(b)
+LitStable == [][Mode = "lit" => \A k \in DOMAIN lit.steps : lit'.steps[k] = lit.steps[k]]_vars
+LitLaws == LitEqImpliesRepr /\ LitEqImpliesValue /\ LitReprEvaluable /\ LitIdentitySound
+
+\* export: one JSON line per complete behaviour; eqc = first earlier object the code calls == (the predicted
+\* equality classes), cls / vt / id = predicted class, stored type and identity of the returned object
+LitEqc(k) == CHOOSE j \in 1..k : LitEq(LitO(j), LitO(k)) /\ \A m \in 1..(j - 1) : ~LitEq(LitO(m), LitO(k))
+LitDoc ==
+  [steps |-> [k \in DOMAIN lit.steps |->
+     [api |-> lit.steps[k].call.api, src |-> lit.steps[k].call.src, slot |-> lit.steps[k].call.slot,
+      im |-> lit.steps[k].call.im, cls |-> LitO(k).cls, vt |-> LitO(k).vt, id |-> lit.steps[k].id, eqc |-> LitEqc(k)]]]
+LitExport == (Mode = "lit" /\ Len(lit.steps) = LitMax) => PrintT(ToJson(LitDoc))
+\* the laws, printing the behaviour that violates them (model of the code AS PROBED, see c13.py)
+LitLawsCex == LitLaws \/ (PrintT(ToJson(LitDoc)) /\ FALSE)
+
+-----------------------------------------------------------------------------
+Init == IF Mode = "heap" THEN HeapInit ELSE IF Mode = "lit" THEN LitInit ELSE TabInit
+Next == IF Mode = "heap" THEN HeapNext ELSE IF Mode = "lit" THEN LitNext ELSE UNCHANGED vars
 Spec == Init /\ [][Next]_vars
 
 -----------------------------------------------------------------------------
